@@ -198,6 +198,20 @@ void ExpressionBuilder::type_void()
     typeFragments.push(type);
 }
 
+/**
+ * True if the user data of the symbol is a variable_t (cf. the dispatch in document.cpp): templates, instances,
+ * processes, locations and functions also carry user data, but of other types.
+ */
+static bool holds_variable(const symbol_t& symbol)
+{
+    if (symbol.get_data() == nullptr)
+        return false;
+    const type_t type = symbol.get_type().strip_array();
+    return type.is(Constants::INT) || type.is(Constants::STRING) || type.is(Constants::DOUBLE) ||
+           type.is(Constants::BOOL) || type.is(Constants::CLOCK) || type.is(Constants::CHANNEL) ||
+           type.is(Constants::SCALAR) || type.get_kind() == Constants::RECORD;
+}
+
 static void collectDependencies(std::set<symbol_t>& dependencies, expression_t expr)
 {
     std::set<symbol_t> symbols;
@@ -207,8 +221,8 @@ static void collectDependencies(std::set<symbol_t>& dependencies, expression_t e
         symbols.erase(s);
         if (dependencies.find(s) == dependencies.end()) {
             dependencies.insert(s);
-            if (auto* data = s.get_data(); data) {
-                variable_t* v = static_cast<variable_t*>(data);
+            if (holds_variable(s)) {
+                auto* v = static_cast<variable_t*>(s.get_data());
                 v->init.collect_possible_reads(symbols);
             }
         }
